@@ -3,6 +3,7 @@ an own builder for programs whose operations carry matrices, documented 2x2 unit
 (from the docstrings of ops.py, not from SF code) for reconstructing the unitary of an emitted circuit, and the
 extension of the independent phase-space reference (`lib.sim`) to sMZgate / Interferometer / GaussianTransform."""
 import cmath
+import json
 import math
 from fractions import Fraction
 
@@ -149,25 +150,38 @@ def dec(x):
     return x
 
 
-def build_prog(spec):
-    """spec: {n, ops:[{cls, regs, pars, kw, dagger}]} with matrices encoded by `enc`"""
+def build_prog(spec, op_cache=None):
+    """spec: {n, ops:[{cls, regs, pars, kw, dagger}]} with matrices encoded by `enc`; `{"cls": "Del", "regs": [..]}`
+    deletes modes (later ops address the remaining modes by their original index: a register with holes).
+    `op_cache` (dict) makes equal operations ONE shared Operation instance within and across programs."""
     import strawberryfields as sf
     from strawberryfields import ops
     prog = sf.Program(spec["n"])
     with prog.context as q:
         for op in spec["ops"]:
-            cls = getattr(ops, op["cls"])
-            o = cls(*[dec(p) for p in op.get("pars", [])], **{k: dec(v) for k, v in op.get("kw", {}).items()})
-            if op.get("dagger"):
-                o = o.H
             regs = [q[i] for i in op["regs"]]
+            if op["cls"] == "Del":
+                ops.Del | (regs if len(regs) > 1 else regs[0])
+                continue
+            key = None
+            if op_cache is not None:
+                key = json.dumps([op["cls"], op.get("pars", []), op.get("kw", {}), bool(op.get("dagger"))], sort_keys=True, default=str)
+            if key is not None and key in op_cache:
+                o = op_cache[key]
+            else:
+                cls = getattr(ops, op["cls"])
+                o = cls(*[dec(p) for p in op.get("pars", [])], **{k: dec(v) for k, v in op.get("kw", {}).items()})
+                if op.get("dagger"):
+                    o = o.H
+                if key is not None:
+                    op_cache[key] = o
             o | (regs if len(regs) > 1 else regs[0])
     return prog
 
 
-def run_spec(sf, spec, backend, hbar=2.0, cutoff=8, pure=True):
+def run_spec(sf, spec, backend, hbar=2.0, cutoff=8, pure=True, op_cache=None):
     sf.hbar = hbar
-    prog = build_prog(spec)
+    prog = build_prog(spec, op_cache)
     if backend == "fock":
         eng = sf.Engine("fock", backend_options=dict(cutoff_dim=cutoff, pure=pure))
     else:
@@ -256,9 +270,24 @@ def ref_apply(ref, op, hbar=2.0):
 def reference(spec, hbar=2.0):
     ref = sim.RefState(spec["n"])
     for op in spec["ops"]:
+        if op["cls"] == "Del":
+            continue
         if not ref_apply(ref, op, hbar):
             return None
     return ref
+
+
+def deleted_modes(spec):
+    return sorted({m for op in spec["ops"] if op["cls"] == "Del" for m in op["regs"]})
+
+
+def drop_modes(mom, dead):
+    """remove the rows / columns of deleted modes from (alpha, N, M)"""
+    if not dead:
+        return mom
+    a, N, M = mom[:3]
+    keep = [i for i in range(len(a)) if i not in dead]
+    return (np.asarray(a)[keep], np.asarray(N)[np.ix_(keep, keep)], np.asarray(M)[np.ix_(keep, keep)]) + tuple(mom[3:])
 
 
 def state_moments(sf, st, backend, hbar):
